@@ -12,9 +12,10 @@
 (* they never lie on a boundary.  Everything is decided in integer arithmetic.*)
 (*                                                                            *)
 (* A program (JSON):                                                           *)
-(*   fam   "cont" | "box" | "vis" | "rh"                                       *)
+(*   fam   "cont" | "ori" | "box" | "vis" | "rh"                               *)
 (*   objs  <<ego, other>> or <<obj>>; an object is                             *)
-(*         [fixed, pos, base, poly, off, sizes, yaws, pitches, rolls, facing, vis, vd]          *)
+(*         [fixed, pos, base, poly, off, sizes, yaws, pitches, rolls,        *)
+(*          facing, vis, vd]                                                 *)
 (*           fixed/pos : placed `at` pos (no base)                             *)
 (*           base      : <<box, ...>>  box = <<x0,y0,z0,x1,y1,z1>>             *)
 (*           off       : <<ox,oy>> horizontal offset position - base point     *)
